@@ -137,6 +137,7 @@ func checkC03(c *core.Ctx) {
 	defer soakC03(c)
 	defer gridC03(c)
 	defer scalarArgC03(c)
+	defer specialC03(c)
 	sameOperandSequence(c, "sameoperand", [][]int{{3}, {2, 3}, {2, 1, 3}, {5, 2}}, c03Ops, false)
 	composeCases(c, "compose", composeShapes, consumersElementwise, false)
 	shapes := append(enum.ShapeSet(c.Thorough()), longShapes(c.Thorough())...)
@@ -935,6 +936,30 @@ func checkC05(c *core.Ctx) {
 				t.V[0], t.V[len(t.V)-1] = mx+1, mx+1
 				if len(t.V) >= 4 {
 					t.V[1], t.V[len(t.V)-2] = mn-1, mn-1
+				}
+			}
+			return t
+		}},
+		// special data (round 16, checks_special.go): what a data-dependent shortcut would single out
+		{"zeros", func(s []int) *ref.T { return ref.FullOf(s, 0) }},
+		{"ones", func(s []int) *ref.T { return ref.FullOf(s, 1) }},
+		{"zerosumrows", func(s []int) *ref.T {
+			if t, ok := specialData(s, 61)["zerosumrows"]; ok {
+				return t
+			}
+			return enum.Generic(s, 61, 0.5, 3, true)
+		}},
+		{"zerorows", func(s []int) *ref.T {
+			if t, ok := specialData(s, 62)["zerorows"]; ok {
+				return t
+			}
+			return enum.Generic(s, 62, 0.5, 3, true)
+		}},
+		{"sparse", func(s []int) *ref.T { // exact zeros among values of non-zero mean
+			t := enum.Generic(s, 63, 0.5, 3, false)
+			for i := range t.V {
+				if i%3 == 1 {
+					t.V[i] = 0
 				}
 			}
 			return t
